@@ -57,4 +57,33 @@ PROPS = {
         "min_obligations": {"quick": 2, "thorough": 2},
         "uncovered": ["the call site inside Framed::read (gate applied iff verify_version)"],
     },
+    "C14": {
+        "generators": [gen.gen_c14_variants],
+        "level": "proof",
+        "trusted_base": [A_KANI, A_BINRW],
+        "assumptions": [],
+        "min_obligations": {"quick": 3, "thorough": 3},
+        "uncovered": [],
+    },
+    "C16": {
+        "level": "proof",
+        "trusted_base": [A_KANI],
+        "assumptions": ["A5 precondition of the order axioms: str::parse::<f32> on a digit/dot string never yields NaN, a negative value or -0.0 (assumed on core; the parser admits only is_numeric characters and '.')"],
+        "min_obligations": {"quick": 1, "thorough": 1},
+        "uncovered": ["FromStr totality on arbitrary strings, Display/FromStr round trip, case-insensitivity, the 8-byte wire form: Peekable<Chars>/take_while_ref/float parsing and printing are out of reach of Kani (K13) and rejected by Verus (V5) - NOT decided"],
+    },
+    "C10": {
+        "level": "proof",
+        "trusted_base": [A_KANI, "encoding_rs statics: the identity of WINDOWS_125x / SHIFT_JIS / GBK / EUC_KR / BIG5 with Windows codepages 125x / 932 / 936 / 949 / 950"],
+        "assumptions": [],
+        "min_obligations": {"quick": 3, "thorough": 3},
+        "uncovered": ["to_lossy_bytes / to_lossy_string themselves (faithfulness over the repertoire, '?' substitution, BOM-looking prefixes, DBCS trail byte 0x5E, totality): iterator- and encoding_rs-based text algorithms are out of reach of Kani (K13: 3 symbolic bytes do not finish) and rejected by Verus (V5) - NOT decided"],
+    },
+    "C12": {
+        "level": "proof",
+        "trusted_base": [A_KANI],
+        "assumptions": [],
+        "min_obligations": {"quick": 1, "thorough": 1},
+        "uncovered": ["the scanners escape(), unescape(), colours::strip() (round trip on whole strings, idempotence of strip, interaction with the codepage path): chars().peekable() over String is out of reach of Kani (K13) and rejected by Verus (V5) - NOT decided"],
+    },
 }
